@@ -531,7 +531,8 @@ func c05StreamWithIntruders(c *Ctx, si int, spec connSpec) {
 		otherDone := make(chan struct{})
 		go func() {
 			defer close(otherDone)
-			doSend(conn, tap, sendOp{API: intruder, Opcode: 2, Slices: [][]byte{[]byte("written by another goroutine")},
+			// (rawSend: no snapshot of the compression window first - that accessor takes the connection's write lock)
+			rawSend(conn, sendOp{API: intruder, Opcode: 2, Slices: [][]byte{[]byte("written by another goroutine")},
 				Reader: map[bool]*chunkReader{true: newChunkReader([][]byte{[]byte("streamed by another goroutine")}, "sep")}[intruder == "file"]})
 		}()
 		select { // give the other writer time to reach (and, if nothing stops it, pass) the write lock
